@@ -83,14 +83,21 @@ ties every later share to the signature, and it must survive every rejected shar
 
 Deviation: of the tree only its root is kept (`tree : Option H`); with collision-free hashing every
 known inner node is determined by the root, so "consistent with the known nodes" = "hashes to the known
-root".  Chains the reader does not ask for because the nodes are already known are modelled as given.
+root".  Chains the reader does not ask for because the nodes are already known are modelled as given;
+a chain that stops below the root is "not connected" (`chainRoot = none`) even if nodes the tree
+happens to know already would bridge the gap -- then the real tree compares with those nodes, which
+under the invariant are the signed root's, so it accepts only leaves of the signed root anyway.
 (In the `none` branch -- never reached from `Retr.setup` -- a real tree that adopted a root computed from
 a damaged leaf also remembers the chain's inner nodes; the driver correspondence therefore feeds unseeded
 trees internally consistent shares only.) -/
 
-/-- what `set_hashes` computes on the way up: the root obtained from a chain, the leaf number and the leaf -/
+/-- what `set_hashes` computes on the way up: the root obtained from a chain, the leaf number and the
+leaf -- or `none` when the supplied hashes do not CONNECT the leaf to the root: some node on the way
+(the leaf itself, or a parent `set_hashes` computed from it) has no known sibling.  That is
+`NotEnoughHashesError("unable to validate [i]")`; it is raised for every such node, whether it was
+passed in or computed, and all hashes of the call are forgotten. -/
 structure TreeOps (H Chain : Type) where
-  chainRoot : Chain → Nat → H → H
+  chainRoot : Chain → Nat → H → Option H
 
 /-- the part of a `Retrieve` that block validation reads and writes -/
 structure Retr (H Blocks : Type) where
@@ -115,10 +122,12 @@ acceptance, or `CorruptShareError` → `_handle_bad_share` → `_mark_bad_share`
 def rstep {H Chain Blocks : Type} [DecidableEq H] (T : TreeOps H Chain) (bhtRoot : Blocks → H)
     (r : Retr H Blocks) : REv Chain Blocks → Retr H Blocks
   | .offer i c b =>
-    let computed := T.chainRoot c i (bhtRoot b)
-    match r.tree with
-    | some root => if computed = root then { r with shares := r.shares ++ [(i, b)] } else markBad r i
-    | none => { r with tree := some computed, shares := r.shares ++ [(i, b)] }   -- a root it computed itself is accepted
+    match T.chainRoot c i (bhtRoot b) with
+    | none => markBad r i                      -- NotEnoughHashesError: the leaf is not tied to the root
+    | some computed =>
+      match r.tree with
+      | some root => if computed = root then { r with shares := r.shares ++ [(i, b)] } else markBad r i
+      | none => { r with tree := some computed, shares := r.shares ++ [(i, b)] }   -- a root it computed itself is accepted
   | .fail i => markBad r i
 
 def rrun {H Chain Blocks : Type} [DecidableEq H] (T : TreeOps H Chain) (bhtRoot : Blocks → H)
@@ -131,6 +140,18 @@ def rstepReset {H Chain Blocks : Type} [DecidableEq H] (T : TreeOps H Chain) (bh
   let r' := rstep T bhtRoot r e
   if r'.bad.length = r.bad.length then r' else { r' with tree := none }
 
+/-- NOT the code: the variant in which a node without a known sibling is treated as a "surplus hash"
+and dropped unless it is one of the leaves passed in -- so a parent computed from the leaf under
+validation is dropped too and the leaf counts as validated although nothing tied it to the root.
+Kept only for the counterexample in Props/C10. -/
+def rstepSurplus {H Chain Blocks : Type} [DecidableEq H] (T : TreeOps H Chain) (bhtRoot : Blocks → H)
+    (r : Retr H Blocks) : REv Chain Blocks → Retr H Blocks
+  | .offer i c b =>
+    match T.chainRoot c i (bhtRoot b) with
+    | none => { r with shares := r.shares ++ [(i, b)] }
+    | some _ => rstep T bhtRoot r (.offer i c b)
+  | .fail i => markBad r i
+
 /-! #### a toy hash universe for the driver (share "families": family f = one consistent set of N shares) -/
 namespace Toy
 
@@ -141,19 +162,24 @@ inductive TH
   | junkRoot (c i : Nat) (leaf : TH)   -- what a chain of family c computes from a leaf that is not its own
   deriving DecidableEq, Repr
 
-/-- chains are identified with their family -/
-def ops : TreeOps TH Nat where
-  chainRoot := fun c i leaf => if leaf = .leafOf c i then .fam c else .junkRoot c i leaf
+/-- chains are identified with their family, plus whether they reach up to the root (`true`) or stop
+below it (`false`: e.g. a chain whose records name only the sibling leaf) -/
+def ops : TreeOps TH (Nat × Bool) where
+  chainRoot := fun c i leaf =>
+    if !c.2 then none
+    else some (if leaf = .leafOf c.1 i then .fam c.1 else .junkRoot c.1 i leaf)
 
 inductive Ev
   | offer (shnum fam : Nat)            -- an internally consistent share of family `fam`
   | damaged (shnum fam id : Nat)       -- chain of family `fam`, block data damaged
+  | truncated (shnum fam : Nat)        -- an internally consistent share of family `fam` whose chain stops below the root
   | fail (shnum : Nat)
   deriving Repr
 
-def toREv : Ev → REv Nat TH
-  | .offer i f => .offer i f (.leafOf f i)
-  | .damaged i f id => .offer i f (.junkLeaf id)
+def toREv : Ev → REv (Nat × Bool) TH
+  | .offer i f => .offer i (f, true) (.leafOf f i)
+  | .damaged i f id => .offer i (f, true) (.junkLeaf id)
+  | .truncated i f => .offer i (f, false) (.leafOf f i)
   | .fail i => .fail i
 
 /-- per event: was the share accepted?  plus the final state -/
